@@ -253,7 +253,7 @@ def _exhaustive_vectors(maxlen, minlen=0):
                     yield {"fam": "vector", "data": list(data), "reverse": rev, "na_last": na_last}
 
 
-def generate(rng, tier):
+def _generate(rng, tier):
     thorough = tier != "quick"
     counter = [0]
     yield from _malformed(rng, tier)
@@ -277,6 +277,18 @@ def generate(rng, tier):
         yield from _exhaustive_vectors(6, 5)
         yield from _exhaustive_tables(3, 3, counter, 3)
 
+
+
+def generate(rng, tier):
+    """every table case whose keys are stored columns is also run *warm* now and then: the judged table is the result of an
+    earlier sort_by with the same arguments whose cells were then rewritten in place (see _build)"""
+    k = 0
+    for s in _generate(rng, tier):
+        yield s
+        if s.get("fam") == "table" and s.get("n") and all("name" in b or "col" in b for b in s.get("by", [])):
+            k += 1
+            if k % 4 == 0:
+                yield dict(s, warm=1 + (k // 4) % 2)
 
 # --------------------------------------------------------------------------------------
 # execution on the real code
@@ -304,6 +316,27 @@ def _build(spec):
     from serif import Table, Vector
     names, cols = _all_cols(spec)
     t = Table({nm: list(c) for nm, c in zip(names, cols)})
+    if spec.get("warm") and spec["n"] and all(("name" in k and k["name"] in names) or "col" in k for k in spec["by"]):
+        # the judged table is itself the result of an earlier sort_by with the very same keys, directions and None placement,
+        # whose cells were then overwritten in place through its live column views: whatever that result remembers about
+        # being sorted (or about its key order) is stale when the judged call runs
+        try:
+            t0 = Table({nm: list(reversed(c)) for nm, c in zip(names, cols)})
+            by0 = [k.get("name", k.get("col")) for k in spec["by"]]
+            rv0 = spec["reverse"]
+            rev0 = bool(rv0) if spec["rev_form"] == "bool" else list(rv0)
+            s0 = t0.sort_by(by0 if spec["by_form"] != "single" else by0[0], reverse=rev0, na_last=spec["na_last"])
+            if spec["warm"] == 2:
+                s0.sort_by(by0 if spec["by_form"] != "single" else by0[0], reverse=rev0, na_last=spec["na_last"])
+            views = list(s0.cols())
+            for v, c in zip(views, cols):
+                for i, x in enumerate(c):
+                    if v[i] is not x and not (v[i] == x and type(v[i]) is type(x)):
+                        v[i] = x
+            if [list(v) for v in s0.cols()] == [list(c) for c in cols] and s0.column_names() == list(names):
+                t = s0
+        except Exception:
+            pass
     keys, vecs, model_keys = [], [], []
     for k in spec["by"]:
         if "name" in k:
